@@ -364,6 +364,10 @@ func runC18(c *engine.Ctx) {
 		descs = append(descs, k.desc)
 	}
 	content := writeJWKS(path, objs)
+	if p.Draw(8, "set:leading-ws") == 7 {
+		// JSON allows white space before the first brace
+		content = append([]byte([]string{"\n", "  ", "\r\n", "\t", "\n\n  "}[p.Draw(5, "set:leading-wsv")]), content...)
+	}
 	// previous version of the file (for stale / torn / splice faults): a valid one-key EdDSA set with id "a"
 	old := writeJWKS(path, []map[string]any{jwkJSON(c18Bases[4], "EdDSA", true, "a")})
 
@@ -664,6 +668,39 @@ func runC18(c *engine.Ctx) {
 			c.Guard("C18.panic", "Verify with fixture "+pi.alg.String(), func() { verr = signature.Verify(context.Background(), sig, fixture.pub, step) })
 			if verr == nil {
 				c.Fail("C18.sign-verify", pi.alg.String(), "a signature made with a freshly generated key verifies under an unrelated fixture key")
+			}
+		}
+		// two different keys that carry the SAME key id, used one after the other (a rotated key that kept its
+		// id): each signature belongs to the key that made it
+		for _, kind := range []string{"EdDSA", "ES512", "PS512"} {
+			ka, kb := ring.byKind[kind][0], ring.byKind[kind][1]
+			privB, e1 := kb.priv.(jwk.Key).Clone()
+			pubB, e2 := kb.pubKey.Clone()
+			if e1 != nil || e2 != nil {
+				continue
+			}
+			kid := ka.priv.(jwk.Key).KeyID()
+			privB.Set(jwk.KeyIDKey, kid)
+			pubB.Set(jwk.KeyIDKey, kid)
+			setB := jwk.NewSet()
+			setB.AddKey(pubB)
+			var sigA, sigB *pipeline.Signature
+			var ea, eb error
+			c.Guard("C18.panic", "Sign with two keys sharing an id ("+kind+")", func() {
+				sigA, ea = signature.Sign(context.Background(), ka.priv, step)
+				sigB, eb = signature.Sign(context.Background(), privB, step)
+			})
+			if ea != nil || eb != nil {
+				c.Fail("C18.sign-verify", kind+" two keys with one id", "signing failed: %v / %v", ea, eb)
+			}
+			var vBB, vBA, vAB error
+			c.Guard("C18.panic", "Verify with two keys sharing an id ("+kind+")", func() {
+				vBB = signature.Verify(context.Background(), sigB, setB, step)
+				vBA = signature.Verify(context.Background(), sigB, ka.pub, step)
+				vAB = signature.Verify(context.Background(), sigA, setB, step)
+			})
+			if vBB != nil || vBA == nil || vAB == nil {
+				c.Fail("C18.sign-verify", kind+" two keys with one id", "keys A and B of kind %s both carry id %q: B's signature under B's public half: err=%v (want nil); B's signature under A's: err=%v (want an error); A's signature under B's: err=%v (want an error)", kind, kid, vBB, vBA, vAB)
 			}
 		}
 		c.Probe("generated_pairs_checked")
